@@ -11,6 +11,7 @@ import (
 	"net/http"
 	"net/http/httptest"
 	"os"
+	"sort"
 	"strings"
 	"syscall"
 	"testing"
@@ -18,6 +19,7 @@ import (
 
 	"github.com/beevik/etree"
 	"github.com/crewjam/saml"
+	"github.com/crewjam/saml/samlidp"
 	"github.com/crewjam/saml/samlsp"
 	"github.com/crewjam/saml/xmlenc"
 )
@@ -71,10 +73,13 @@ type c08Knobs struct {
 	// DefaultMark: the registered POST endpoint is marked isDefault="true"
 	DefaultMark bool    `json:"acs_marked_default,omitempty"`
 	Layout      []c08KD `json:"sp_key_descriptors"`
+	// Server: the IdP is the bundled samlidp server; what is registered for the SP is whatever the history of PUT /services/<name>,
+	// DELETE /services/<name> and restarts in the plan leaves in its store (nothing is registered before the first put step)
+	Server bool `json:"bundled_server,omitempty"`
 }
 
 type c08Step struct {
-	Kind string `json:"kind"` // emit | inner | tamper | rekey
+	Kind string `json:"kind"` // emit | inner | tamper | rekey | put | delete | restart
 	// emit: the IdP answers a request of the SP for session number Session
 	Session int `json:"session,omitempty"`
 	// emit: the k-th read from the xmlenc random source during this emission fails (0: none; a transient entropy fault)
@@ -84,6 +89,17 @@ type c08Step struct {
 	Retry bool `json:"retry_on_same_request,omitempty"`
 	// emit: the login is IdP-initiated (ServeIDPInitiated for the SP's entity ID): no request, the SP's registered default endpoint
 	IdPInit bool `json:"idp_initiated,omitempty"`
+	// emit: an application's own IdP-initiated launch: it looks the SP up, builds the IdpAuthnRequest by hand (metadata, POST endpoint) the way
+	// ServeIDPInitiated does, and names the role descriptor ("descriptor-named") or, like code written before that field existed, does not
+	// ("descriptor-not-named"). What the registered metadata advertises does not depend on how the request object was filled in.
+	HandBuilt string `json:"application_built_request,omitempty"`
+	// emit, application-built: the application makes the assertion elsewhere (on a complete copy of the request) and hands it over
+	AppMaker bool `json:"assertion_made_by_application,omitempty"`
+	// put / delete (bundled server): the service name; put: whose metadata ("self": the addressee, "other": another SP) and which key-descriptor
+	// layout it carries ("": the run's layout, else one of the named layouts)
+	Name    string `json:"service_name,omitempty"`
+	Entity  string `json:"entity,omitempty"`
+	Variant string `json:"layout_variant,omitempty"`
 	// emit: the user carries one more attribute whose value is this many bytes long (the plaintext's length decides block and chunk boundaries)
 	Pad int `json:"filler_attribute_bytes,omitempty"`
 	// rekey: the SP rolls its key over (rsa1 <-> rsa3) and re-registers the same layout with the other certificate
@@ -214,12 +230,12 @@ func genEncrypt(g *Rng, tier string) *Plan {
 			k.Layout = append(k.Layout, kd)
 		}
 	}
+	k.Server = g.Bool(0.3)
 	p := &Plan{Knobs: mustJSON(k)}
-	ne := 2 + g.PickW(4, 3, 2)
-	for i := 0; i < ne; i++ {
+	genEmit := func(first bool) c08Step {
 		st := c08Step{Kind: "emit", Session: g.PickW(5, 3, 2)}
 		switch {
-		case i == 0:
+		case first:
 			st.Pad = int(g.Run*16) % 4096 // consecutive runs walk the plaintext length through every 16-byte block position of a 4 KiB window
 		case g.Bool(0.6):
 			st.Pad = g.Intn(9000)
@@ -232,23 +248,37 @@ func genEncrypt(g *Rng, tier string) *Plan {
 		if !st.Retry && g.Bool(0.2) {
 			st.IdPInit = true
 		}
-		p.Steps = append(p.Steps, mustJSON(st))
+		if !st.Retry && !st.IdPInit && g.Bool(0.04) {
+			st.HandBuilt = Pick(g, "descriptor-named", "descriptor-not-named")
+			st.AppMaker = g.Bool(0.3)
+		}
+		return st
+	}
+	genSPSide := func() c08Step {
+		if g.Bool(0.5) {
+			return c08Step{Kind: "inner", Defect: Pick(g, c08Defects...),
+				RespSign: Pick(g, "none", "none", "trusted", "mallory"), AsrtSign: Pick(g, "trusted", "trusted", "none", "mallory")}
+		}
+		st := c08Step{Kind: "tamper", Op: Pick(g, c08Ops...), Arg: g.Intn(1 << 20), Bit: g.Intn(8), SignAfter: g.Bool(0.35)}
+		if st.Op == "truncate-data" {
+			st.Arg = Pick(g, c08TruncLens...)
+		}
+		return st
+	}
+	if k.Server {
+		genServerSteps(g, p, genEmit, genSPSide)
+		return p
+	}
+	ne := 2 + g.PickW(4, 3, 2)
+	for i := 0; i < ne; i++ {
+		p.Steps = append(p.Steps, mustJSON(genEmit(i == 0)))
 		if i > 0 && g.Bool(0.2) {
 			p.Steps = append(p.Steps, mustJSON(c08Step{Kind: "rekey"}), mustJSON(c08Step{Kind: "emit", Session: g.PickW(5, 3, 2)}))
 		}
 	}
 	ns := g.PickW(2, 4, 3, 1)
 	for i := 0; i < ns; i++ {
-		if g.Bool(0.5) {
-			p.Steps = append(p.Steps, mustJSON(c08Step{Kind: "inner", Defect: Pick(g, c08Defects...),
-				RespSign: Pick(g, "none", "none", "trusted", "mallory"), AsrtSign: Pick(g, "trusted", "trusted", "none", "mallory")}))
-		} else {
-			st := c08Step{Kind: "tamper", Op: Pick(g, c08Ops...), Arg: g.Intn(1 << 20), Bit: g.Intn(8), SignAfter: g.Bool(0.35)}
-			if st.Op == "truncate-data" {
-				st.Arg = Pick(g, c08TruncLens...)
-			}
-			p.Steps = append(p.Steps, mustJSON(st))
-		}
+		p.Steps = append(p.Steps, mustJSON(genSPSide()))
 	}
 	// shuffle step order (Fisher-Yates on the PRNG) so that SP-side steps interleave with emissions
 	for i := len(p.Steps) - 1; i > 0; i-- {
@@ -256,6 +286,93 @@ func genEncrypt(g *Rng, tier string) *Plan {
 		p.Steps[i], p.Steps[j] = p.Steps[j], p.Steps[i]
 	}
 	return p
+}
+
+var c08ServiceNames = []string{"a", "b", "c"}
+
+// the layouts a registration other than the run's own may carry ("": the run's layout)
+var c08Variants = []string{"", "", "none", "none", "signing-only", "enc", "nouse"}
+
+// genServerSteps draws a history of the bundled server's service registry (puts under two or three names of the addressee's and another SP's
+// metadata with varying key-descriptor layouts, deletions, restarts) with emissions in between. The generator keeps track of which name
+// carries which entity only to draw histories in which names and entity IDs are re-used (several services carrying one entity ID, a service
+// renamed to another entity ID and back); what is expected of each emission is the model's business at execution time.
+func genServerSteps(g *Rng, p *Plan, genEmit func(first bool) c08Step, genSPSide func() c08Step) {
+	carries := map[string]string{}
+	var used []string // names in use, in the order they were first put (kept sorted below so that nothing depends on map order)
+	put := func(name, entity, variant string) {
+		p.Steps = append(p.Steps, mustJSON(c08Step{Kind: "put", Name: name, Entity: entity, Variant: variant}))
+		if _, ok := carries[name]; !ok {
+			used = append(used, name)
+			sort.Strings(used)
+		}
+		carries[name] = entity
+	}
+	otherEntity := func(e string) string {
+		if e == "self" {
+			return "other"
+		}
+		return "self"
+	}
+	put(Pick(g, "a", "a", "b"), "self", "")
+	p.Steps = append(p.Steps, mustJSON(genEmit(true)))
+	nm := 2 + g.Intn(5)
+	for i := 0; i < nm; i++ {
+		op := g.PickW(3, 3, 2, 1, 1, 1)
+		if len(used) == 0 && op != 4 {
+			op = 5
+		}
+		switch op {
+		case 0: // one more service for an entity ID that a stored service carries already
+			have := Pick(g, used...)
+			name := Pick(g, c08ServiceNames...)
+			if name == have {
+				name = c08ServiceNames[(g.Intn(2)+1+c08IndexOf(c08ServiceNames, have))%len(c08ServiceNames)]
+			}
+			put(name, carries[have], Pick(g, c08Variants...))
+		case 1: // a service is overwritten with the metadata of the other entity
+			name := Pick(g, used...)
+			put(name, otherEntity(carries[name]), Pick(g, c08Variants...))
+		case 2: // a service is overwritten with other metadata of the same entity
+			name := Pick(g, used...)
+			put(name, carries[name], Pick(g, c08Variants...))
+		case 3:
+			name := Pick(g, used...)
+			p.Steps = append(p.Steps, mustJSON(c08Step{Kind: "delete", Name: name}))
+			delete(carries, name)
+			used = append(append([]string{}, used[:c08IndexOf(used, name)]...), used[c08IndexOf(used, name)+1:]...)
+		case 4:
+			p.Steps = append(p.Steps, mustJSON(c08Step{Kind: "restart"}))
+		default:
+			put(Pick(g, c08ServiceNames...), Pick(g, "self", "self", "other"), Pick(g, c08Variants...))
+		}
+		pe := 0.25 // now and then an emission while nothing is registered for the addressee
+		for _, n := range used {
+			if carries[n] == "self" {
+				pe = 0.8
+			}
+		}
+		if g.Bool(pe) {
+			p.Steps = append(p.Steps, mustJSON(genEmit(false)))
+		}
+	}
+	// SP-side steps at drawn positions (after the first registration)
+	ns := g.PickW(3, 4, 2, 1)
+	for i := 0; i < ns; i++ {
+		at := 1 + g.Intn(len(p.Steps))
+		p.Steps = append(p.Steps, nil)
+		copy(p.Steps[at+1:], p.Steps[at:])
+		p.Steps[at] = mustJSON(genSPSide())
+	}
+}
+
+func c08IndexOf(xs []string, x string) int {
+	for i, v := range xs {
+		if v == x {
+			return i
+		}
+	}
+	return -1
 }
 
 // ---------------------------------------------------------------- layout → metadata, and what the statement says about it
@@ -615,6 +732,144 @@ type c08World struct {
 	emitted int
 	swapped bool   // the SP has rolled its key over: its registration now carries rsa3 where the layout says rsa1 and vice versa
 	reg     mapSPP // the IdP's registry
+	// bundled-server mode: the real server on a fault-free store, the other SP, and the model of what is stored: service name -> (entity, layout variant)
+	srv      *samlidp.Server
+	store    *simStore
+	otherSP  *saml.ServiceProvider
+	services map[string]c08Svc
+	// a stored service that carried the addressee's entity ID was overwritten with another entity ID (or deleted) while another stored service still carries it
+	coCarrierLeft bool
+}
+
+type c08Svc struct {
+	Entity  string // self | other
+	Variant string
+}
+
+const c08OtherSPBase = "https://other-sp.example.com"
+
+func (w *c08World) newServer() {
+	srv, err := samlidp.New(samlidp.Options{URL: mustURL("https://idp.example.com"), Key: rsaKeys[c08IdPKey].Key, Certificate: rsaKeys[c08IdPKey].Cert, Store: w.store, Logger: nullLog{}})
+	if err != nil {
+		panic(fmt.Sprintf("harness: the bundled server does not start on a fault-free store: %v", err))
+	}
+	w.srv, w.idp = srv, &srv.IDP
+}
+
+// variantLayout: the key descriptors a registration of the given variant carries now (after any key roll-over).
+func (w *c08World) variantLayout(variant string) []c08KD {
+	kds := w.k.Layout
+	if variant != "" {
+		found := false
+		for _, l := range c08Layouts {
+			if l.name == variant {
+				kds, found = l.kds, true
+			}
+		}
+		if !found {
+			panic("harness: unknown layout variant " + variant)
+		}
+	}
+	if w.swapped {
+		return c08SwapKeys(kds)
+	}
+	return kds
+}
+
+// carriers: the layouts of the stored services (in name order) that carry the addressee's entity ID, by the model.
+func (w *c08World) carriers() (names []string, layouts [][]c08KD) {
+	for _, n := range sortedKeys(w.services) {
+		if w.services[n].Entity == "self" {
+			names = append(names, n)
+			layouts = append(layouts, w.variantLayout(w.services[n].Variant))
+		}
+	}
+	return
+}
+
+// c08Registered is what the statement's premise ("the registered SP metadata advertises ...") evaluates to at one emission.
+type c08Registered struct {
+	Exp c08Expect
+	// None: nothing is registered for the addressee. Ambiguous: several stored services carry its entity ID and their key
+	// descriptors do not say the same about an encryption key (which of them "the registered metadata" is, the statement does not say)
+	None, Ambiguous bool
+	Shape           string
+	OwnKeys         map[int]bool // which of the addressee's own keys the registration(s) advertise; nil when they disagree
+}
+
+func (w *c08World) registeredNow() c08Registered {
+	if !w.k.Server {
+		return c08Registered{Exp: w.exp, Shape: c08Shape(w.k.Layout), OwnKeys: c08AdvertisedOwnKeys(w.currentLayout())}
+	}
+	_, layouts := w.carriers()
+	if len(layouts) == 0 {
+		return c08Registered{None: true, Shape: "not-registered"}
+	}
+	r := c08Registered{Exp: c08Expectation(layouts[0]), Shape: c08Shape(layouts[0]), OwnKeys: c08AdvertisedOwnKeys(layouts[0])}
+	for _, l := range layouts[1:] {
+		e := c08Expectation(l)
+		if e.Advertised != r.Exp.Advertised || e.DontCare != r.Exp.DontCare {
+			r.Ambiguous = true
+		}
+		r.Exp.EncNoX509 = r.Exp.EncNoX509 || e.EncNoX509
+		r.Exp.EmptyEncShadows = r.Exp.EmptyEncShadows && e.EmptyEncShadows
+		if sh := c08Shape(l); !strings.Contains("|"+r.Shape+"|", "|"+sh+"|") {
+			r.Shape += "|" + sh
+		}
+		if r.OwnKeys != nil && fmt.Sprint(c08AdvertisedOwnKeys(l)) != fmt.Sprint(r.OwnKeys) {
+			r.OwnKeys = nil
+		}
+	}
+	return r
+}
+
+// serverPut registers metadata under a service name through the server's REST interface and keeps the model in step. Returns true to stop the run.
+func (w *c08World) serverPut(res *Result, si int, name, entity, variant string) bool {
+	spv := w.sp
+	if entity == "other" {
+		spv = w.otherSP
+	}
+	md, err := c08Register(spv, w.variantLayout(variant))
+	var body []byte
+	if err == nil {
+		body, err = xml.Marshal(md)
+	}
+	if err != nil {
+		panic(fmt.Sprintf("harness: cannot build SP registration: %v", err))
+	}
+	rep := deliver(w.srv, "PUT", "https://idp.example.com/services/"+name, string(body), "", nil)
+	res.probe("server/put")
+	shape := c08Shape(w.variantLayout(variant))
+	if rep.Panic != nil {
+		res.logf("step %d put service=%s entity=%s layout=%s outcome=PANIC", si, name, entity, shape)
+		res.probe("idp-panic/put-service")
+		res.Excluded = "panic (reported under C09)"
+		return true
+	}
+	res.logf("step %d put service=%s entity=%s layout=%s acknowledged=%v", si, name, entity, shape, rep.Code == http.StatusNoContent)
+	if rep.Code != http.StatusNoContent {
+		res.probe("server/registration-refused")
+		return false
+	}
+	if prev, ok := w.services[name]; ok && prev.Entity == "self" && entity != "self" {
+		w.noteCarrierGone(res, name)
+	}
+	w.services[name] = c08Svc{Entity: entity, Variant: variant}
+	if names, _ := w.carriers(); len(names) > 1 {
+		res.probe("server/several-stored-services-carry-the-entity")
+	}
+	return false
+}
+
+func (w *c08World) noteCarrierGone(res *Result, name string) {
+	for n, s := range w.services {
+		if n != name && s.Entity == "self" {
+			w.coCarrierLeft = true
+		}
+	}
+	if w.coCarrierLeft {
+		res.probe("server/carrier-gone-while-another-service-still-carries-the-entity")
+	}
 }
 
 // currentLayout is the registered key-descriptor layout after any key roll-over.
@@ -622,8 +877,12 @@ func (w *c08World) currentLayout() []c08KD {
 	if !w.swapped {
 		return w.k.Layout
 	}
+	return c08SwapKeys(w.k.Layout)
+}
+
+func c08SwapKeys(kds []c08KD) []c08KD {
 	var out []c08KD
-	for _, kd := range w.k.Layout {
+	for _, kd := range kds {
 		n := kd
 		n.Certs = nil
 		for _, c := range kd.Certs {
@@ -640,10 +899,10 @@ func (w *c08World) currentLayout() []c08KD {
 	return out
 }
 
-// advertisedOwnKeys: which of the addressee's two keys appear in encryption-capable descriptors of the current registration.
-func (w *c08World) advertisedOwnKeys() map[int]bool {
+// c08AdvertisedOwnKeys: which of the addressee's two keys appear in encryption-capable descriptors of a registration.
+func c08AdvertisedOwnKeys(kds []c08KD) map[int]bool {
 	out := map[int]bool{}
-	for _, kd := range w.currentLayout() {
+	for _, kd := range kds {
 		if kd.Use != "encryption" && kd.Use != "" {
 			continue
 		}
@@ -718,9 +977,14 @@ func execEncrypt(t *testing.T, p *Plan) *Result {
 	xmlenc.RandReader = w.rec
 	start := time.Now()
 
-	// world: library IdP; its metadata as bytes → the SPs; the addressee's metadata (with the layout) → registry
+	// world: library IdP (or the bundled server); its metadata as bytes → the SPs; the addressee's metadata (with the layout) → registry
 	reg := mapSPP{}
-	w.idp = newIdP("https://idp.example.com", rsaKeys[c08IdPKey], reg)
+	if k.Server {
+		w.store, w.services = newSimStore(), map[string]c08Svc{}
+		w.newServer()
+	} else {
+		w.idp = newIdP("https://idp.example.com", rsaKeys[c08IdPKey], reg)
+	}
 	var err error
 	if pan := guard(func() {
 		var b []byte
@@ -732,13 +996,20 @@ func execEncrypt(t *testing.T, p *Plan) *Result {
 		panic(fmt.Sprintf("harness: cannot exchange IdP metadata: %v %v", pan, err))
 	}
 	w.sp = w.spWithKey(c08SPKey)
-	md, err := c08Register(w.sp, k.Layout)
-	if err != nil {
-		panic(fmt.Sprintf("harness: cannot build SP registration: %v", err))
+	w.otherSP = newSP(c08OtherSPBase, rsaKeys[c08OtherSPKey], "", w.idpMD)
+	if !k.Server {
+		md, err := c08Register(w.sp, k.Layout)
+		if err != nil {
+			panic(fmt.Sprintf("harness: cannot build SP registration: %v", err))
+		}
+		reg[md.EntityID] = md
+		w.reg = reg
 	}
-	reg[md.EntityID] = md
-	w.reg = reg
 	res.logf("world layout=%s shape=%s advertised=%v dontcare=%v enc-without-x509=%v", k.LayoutName, c08Shape(k.Layout), w.exp.Advertised, w.exp.DontCare, w.exp.EncNoX509)
+	if k.Server {
+		res.logf("world the IdP is the bundled server; its registry is what the put/delete/restart steps leave")
+		res.Nontrivial = true
+	}
 	if w.exp.Advertised || w.exp.DontCare || w.exp.EncNoX509 {
 		res.Nontrivial = true
 	}
@@ -751,14 +1022,31 @@ func execEncrypt(t *testing.T, p *Plan) *Result {
 			stop = c08Emit(w, res, si, st)
 		case "rekey":
 			w.swapped = !w.swapped
+			res.fire("sp-key-rollover")
+			res.Nontrivial = true
+			if k.Server {
+				// every stored service that carries the addressee's entity is put again with the other certificate
+				names, _ := w.carriers()
+				res.logf("step %d the SP rolled its key over and re-registers under %d service name(s)", si, len(names))
+				for _, n := range names {
+					if stop = w.serverPut(res, si, n, "self", w.services[n].Variant); stop {
+						break
+					}
+				}
+				break
+			}
 			md, err := c08Register(w.sp, w.currentLayout())
 			if err != nil {
 				panic(fmt.Sprintf("harness: cannot build SP registration: %v", err))
 			}
 			w.reg[md.EntityID] = md
-			res.fire("sp-key-rollover")
-			res.Nontrivial = true
 			res.logf("step %d the SP rolled its key over and re-registered (same entity ID, other certificate)", si)
+		case "put", "delete", "restart":
+			if !k.Server {
+				res.logf("step %d %s: no bundled server in this run", si, st.Kind)
+				break
+			}
+			stop = c08Manage(w, res, si, st)
 		case "inner":
 			res.Nontrivial = true
 			stop = c08Inner(w, res, si, st)
@@ -775,10 +1063,52 @@ func execEncrypt(t *testing.T, p *Plan) *Result {
 	return res
 }
 
+// c08Manage: one management call on the bundled server (or its restart on the same store). Returns true to stop the run.
+func c08Manage(w *c08World, res *Result, si int, st c08Step) bool {
+	switch st.Kind {
+	case "put":
+		if st.Entity != "self" && st.Entity != "other" {
+			panic("harness: unknown entity " + st.Entity)
+		}
+		return w.serverPut(res, si, st.Name, st.Entity, st.Variant)
+	case "delete":
+		rep := deliver(w.srv, "DELETE", "https://idp.example.com/services/"+st.Name, "", "", nil)
+		res.probe("server/delete")
+		if rep.Panic != nil {
+			res.logf("step %d delete service=%s outcome=PANIC", si, st.Name)
+			res.probe("idp-panic/delete-service")
+			res.Excluded = "panic (reported under C09)"
+			return true
+		}
+		res.logf("step %d delete service=%s acknowledged=%v", si, st.Name, rep.Code == http.StatusNoContent)
+		if rep.Code == http.StatusNoContent {
+			if prev, ok := w.services[st.Name]; ok && prev.Entity == "self" {
+				w.noteCarrierGone(res, st.Name)
+			}
+			delete(w.services, st.Name)
+		}
+	case "restart":
+		w.newServer()
+		res.probe("server/restart")
+		res.logf("step %d the server restarted on its store", si)
+	}
+	return false
+}
+
 // c08Emit: one SP-initiated login answered by the library IdP, observed by the eavesdropper. Returns true to stop the run.
 func c08Emit(w *c08World, res *Result, si int, st c08Step) bool {
 	sess, secrets := c08Session(st.Session, st.Pad)
-	shape := c08Shape(w.k.Layout)
+	// what is registered for the addressee at this moment, and what its key descriptors say (the statement's premise)
+	regd := w.registeredNow()
+	exp, shape := regd.Exp, regd.Shape
+	if w.k.Server {
+		res.probe("bundled-server-emission")
+		res.logf("step %d registered: %s none=%v ambiguous=%v advertised=%v dontcare=%v", si, shape, regd.None, regd.Ambiguous, exp.Advertised, exp.DontCare)
+		if w.coCarrierLeft && !regd.None {
+			res.probe("bundled-server-emission/after-another-carrier-of-the-entity-was-renamed-or-deleted")
+		}
+	}
+	idpInit := st.IdPInit || st.HandBuilt != ""
 	// the SP's request
 	var ar *saml.AuthnRequest
 	var hr *http.Request
@@ -829,9 +1159,14 @@ func c08Emit(w *c08World, res *Result, si int, st c08Step) bool {
 			}
 			rep.Code = 500
 		})
+	} else if st.HandBuilt != "" {
+		res.probe("application-built-request/" + st.HandBuilt)
+		rep = c08HandBuilt(w, st, sess)
 	} else if st.IdPInit {
 		res.probe("idp-initiated-emission")
 		rep = deliver(http.HandlerFunc(func(rw http.ResponseWriter, r *http.Request) { w.idp.ServeIDPInitiated(rw, r, spEntityID(w.sp), "rs") }), "GET", idpSSO+"/launch", "", "", nil)
+	} else if w.k.Server {
+		rep = deliver(w.srv, "GET", hr.URL.String(), "", "", nil) // through the server's own routing
 	} else {
 		rep = deliver(http.HandlerFunc(w.idp.ServeSSO), "GET", hr.URL.String(), "", "", nil)
 	}
@@ -843,9 +1178,16 @@ func c08Emit(w *c08World, res *Result, si int, st c08Step) bool {
 	drawn := append([]byte{}, w.rec.drawn...)
 	w.emitted++
 
+	if rep.Panic != nil && st.HandBuilt == "descriptor-not-named" {
+		// nothing left the IdP, and nothing of the world changed: the run goes on, but is counted as excluded
+		res.logf("step %d emit session=%d application-built request without descriptor: outcome=PANIC (nothing emitted)", si, st.Session)
+		res.probe("idp-panic/application-built-request-without-descriptor")
+		res.Excluded = "panic on an application-built request (nothing emitted)"
+		return false
+	}
 	if rep.Panic != nil {
 		res.logf("step %d emit session=%d outcome=PANIC", si, st.Session)
-		if w.exp.EncNoX509 {
+		if exp.EncNoX509 {
 			res.probe("idp-panic/encryption-descriptor-without-x509")
 		} else {
 			res.probe("idp-panic/other")
@@ -863,9 +1205,13 @@ func c08Emit(w *c08World, res *Result, si int, st c08Step) bool {
 			return true
 		}
 		switch {
-		case w.exp.Advertised:
+		case regd.None:
+			res.probe("not-registered-refused")
+		case regd.Ambiguous:
+			res.dontcare("several-stored-services-carry-the-entity-with-different-key-layouts")
+		case exp.Advertised:
 			res.probe("advertised-key-refused")
-		case w.exp.DontCare:
+		case exp.DontCare:
 			res.dontcare("empty-encryption-certificate")
 		case w.k.LegacyRole == "first":
 			// the requested URL is first listed by the key-less role under a binding the IdP cannot answer on: refusing is the IdP's right
@@ -874,6 +1220,14 @@ func c08Emit(w *c08World, res *Result, si int, st c08Step) bool {
 			res.violate(si, "plaintext-path-failed", "C08/no-key/idp-failed/"+shape, "a response (plaintext allowed: no encryption key advertised)", fmt.Sprintf("HTTP %d, no form", rep.Code), "")
 			return true
 		}
+		return false
+	}
+	if regd.None {
+		// a response for an entity that no stored service carries: whether that may be is the registry's property (C19), and the
+		// statement's premise (registered metadata) has nothing to evaluate
+		res.logf("step %d emit session=%d outcome=FORM although nothing is registered for the addressee", si, st.Session)
+		res.probe("response-for-unregistered-entity")
+		res.Excluded = "response for an entity no stored service carries (C19's subject)"
 		return false
 	}
 	res.fire("eavesdrop")
@@ -902,10 +1256,12 @@ func c08Emit(w *c08World, res *Result, si int, st c08Step) bool {
 	}
 	res.logf("step %d emit session=%d outcome=FORM wire=%s marker-in-clear=%v", si, st.Session, wire, leak != "")
 
-	if w.exp.Advertised {
+	if regd.Ambiguous {
+		res.dontcare("several-stored-services-carry-the-entity-with-different-key-layouts")
+	} else if exp.Advertised {
 		if wire != "encrypted" || leak != "" {
 			sig := "C08/plaintext-despite-key/" + shape
-			if w.exp.EmptyEncShadows {
+			if exp.EmptyEncShadows {
 				sig = "C08/plaintext-despite-key/empty-encryption-cert-shadows-advertised-key"
 			}
 			if wire == "encrypted" {
@@ -914,14 +1270,14 @@ func c08Emit(w *c08World, res *Result, si int, st c08Step) bool {
 			res.violate(si, "plaintext-despite-advertised-key", sig, "EncryptedAssertion only, no user string in clear (or an error)", fmt.Sprintf("wire=%s, in clear: %q", wire, leak), "layout "+shape)
 			return true
 		}
-	} else if w.exp.DontCare {
+	} else if exp.DontCare {
 		res.dontcare("empty-encryption-certificate")
 	}
 
 	// --- who can read it
 	reqID := ar.ID
 	spFor := w.spWithKey
-	if st.IdPInit {
+	if idpInit {
 		reqID = ""
 		spFor = func(idx int) *saml.ServiceProvider {
 			spv := w.spWithKey(idx)
@@ -943,7 +1299,7 @@ func c08Emit(w *c08World, res *Result, si int, st c08Step) bool {
 	}
 	res.logf("step %d addressee=%s", si, owner)
 	if !owner.Accept {
-		if w.exp.DontCare && wire != "plain" {
+		if (exp.DontCare || regd.Ambiguous) && wire != "plain" {
 			return false
 		}
 		res.violate(si, "addressee-cannot-read", "C08/addressee-rejects/"+wire, "the SP holding the advertised key accepts", "REJECT", privErr(own1.Err))
@@ -957,7 +1313,7 @@ func c08Emit(w *c08World, res *Result, si int, st c08Step) bool {
 		return false
 	}
 	// after a key roll-over the content must be recoverable with the key the registration advertises NOW
-	if adv := w.advertisedOwnKeys(); len(adv) == 1 && !adv[ownerKey] {
+	if adv := regd.OwnKeys; len(adv) == 1 && !adv[ownerKey] {
 		res.violate(si, "encrypted-to-retired-key", "C08/encrypted-to-retired-key", "recoverable with the key the registered metadata advertises", fmt.Sprintf("only recoverable with %s, which the SP has retired", rsaKeys[ownerKey].Name), "the registration was replaced earlier in this run")
 		return true
 	}
@@ -1029,6 +1385,60 @@ func c08Emit(w *c08World, res *Result, si int, st c08Step) bool {
 	w.ivs[string(iv)] = w.emitted
 	w.ceks[string(cek)] = w.emitted
 	return false
+}
+
+// c08HandBuilt: an application's own IdP-initiated launch. It looks the SP up in the registry, fills in an IdpAuthnRequest by hand
+// (the registered metadata, the first POST endpoint - what ServeIDPInitiated does), names the role descriptor or not, makes the
+// assertion and writes the response.
+func c08HandBuilt(w *c08World, st c08Step, sess *saml.Session) *reply {
+	rep := &reply{Header: http.Header{}}
+	rep.Panic = guard(func() {
+		r := httptest.NewRequest("GET", idpSSO+"/launch", nil)
+		md, err := w.idp.ServiceProviderProvider.GetServiceProvider(r, spEntityID(w.sp))
+		if err != nil {
+			rep.Code = http.StatusNotFound
+			return
+		}
+		req := &saml.IdpAuthnRequest{IDP: w.idp, HTTPRequest: r, RelayState: "rs", Now: saml.TimeNow(), ServiceProviderMetadata: md}
+		var role *saml.SPSSODescriptor
+		for i := range md.SPSSODescriptors {
+			for _, ep := range md.SPSSODescriptors[i].AssertionConsumerServices {
+				if ep.Binding == saml.HTTPPostBinding && req.ACSEndpoint == nil {
+					ep := ep
+					req.ACSEndpoint = &ep
+					d := md.SPSSODescriptors[i]
+					role = &d
+				}
+			}
+		}
+		if req.ACSEndpoint == nil {
+			rep.Code = http.StatusInternalServerError
+			return
+		}
+		if st.HandBuilt == "descriptor-named" {
+			req.SPSSODescriptor = role
+		}
+		if st.AppMaker {
+			// the assertion is made elsewhere, on a complete description of the login, and handed over
+			whole := *req
+			whole.SPSSODescriptor = role
+			err = saml.DefaultAssertionMaker{}.MakeAssertion(&whole, sess)
+			req.Assertion = whole.Assertion
+		} else {
+			err = saml.DefaultAssertionMaker{}.MakeAssertion(req, sess)
+		}
+		if err != nil {
+			rep.Code = http.StatusInternalServerError
+			return
+		}
+		rec := httptest.NewRecorder()
+		if err = req.WriteResponse(rec); err != nil {
+			rep.Code = http.StatusInternalServerError
+			return
+		}
+		rep.Code, rep.Body = http.StatusOK, rec.Body.String()
+	})
+	return rep
 }
 
 // ---- SP side
@@ -1450,7 +1860,7 @@ func simplifyEncrypt(p *Plan) []*Plan {
 func init() {
 	register(&Profile{
 		ID: "C08", Name: "encrypt", Level: "exploration",
-		Rule: "each run: one world (library IdP; the addressee SP registered with its own published metadata whose KeyDescriptors are replaced by a drawn layout: 30 named layouts {use=encryption, use omitted, signing-only, none, several descriptors in both orders, two encryption certs, line-wrapped base64, not-base64, garbage DER, truncated DER, empty, white space, ECDSA cert, no X509Certificate element, malformed-then-valid, empty-then-valid, two certificates in one descriptor} or 1-3 random descriptors, EncryptionMethod children on/off; MaxIssueDelay/MaxClockSkew drawn) and 2-4 emissions (sessions 0-2, same and different) + 0-3 SP-side steps, shuffled. Emission: a real SP request answered by ServeSSO; an eavesdropper scans the HTML and the decoded SAMLResponse for the session's 13 marker strings; the response is handed to SPs holding the addressee's two keys (must accept, right identity), another SP's key and Mallory's key (must reject); the bytes drawn from xmlenc.RandReader during the emission are recorded and the wire IV and the CEK (recovered with the addressee's key) must be separate draws of this emission and differ from all earlier emissions. SP side: 'inner' = foreign-IdP response with one of 13 defects (windows, audience, recipient, InResponseTo, issuer, destination, status) x response/assertion signed by trusted key, Mallory or nobody, delivered once in plaintext and once encrypted to the SP (decisions must agree and match the expectation); 'tamper' = genuine encrypted response with one of 16 ciphertext alterations (bit flips in IV/first/middle block or in the wrapped key, truncation to 0..4 blocks+-1 byte, swapped/removed/duplicated EncryptedKey, swapped data, empty/non-base64 CipherValue, wrong/unknown/absent algorithm, encrypted to another key, junk plaintext), for structural damage also with the trusted key signing the Response after the damage. Non-trivial = a key, an open region or a panic layout is in play, or the run has an SP-side step; distinct = distinct abstract log",
+		Rule: "each run: one world (library IdP; the addressee SP registered with its own published metadata whose KeyDescriptors are replaced by a drawn layout: 30 named layouts {use=encryption, use omitted, signing-only, none, several descriptors in both orders, two encryption certs, line-wrapped base64, not-base64, garbage DER, truncated DER, empty, white space, ECDSA cert, no X509Certificate element, malformed-then-valid, empty-then-valid, two certificates in one descriptor} or 1-3 random descriptors, EncryptionMethod children on/off; MaxIssueDelay/MaxClockSkew drawn) and 2-4 emissions (sessions 0-2, same and different) + 0-3 SP-side steps, shuffled. Emission: a real SP request answered by ServeSSO; an eavesdropper scans the HTML and the decoded SAMLResponse for the session's 13 marker strings; the response is handed to SPs holding the addressee's two keys (must accept, right identity), another SP's key and Mallory's key (must reject); the bytes drawn from xmlenc.RandReader during the emission are recorded and the wire IV and the CEK (recovered with the addressee's key) must be separate draws of this emission and differ from all earlier emissions. SP side: 'inner' = foreign-IdP response with one of 13 defects (windows, audience, recipient, InResponseTo, issuer, destination, status) x response/assertion signed by trusted key, Mallory or nobody, delivered once in plaintext and once encrypted to the SP (decisions must agree and match the expectation); 'tamper' = genuine encrypted response with one of 16 ciphertext alterations (bit flips in IV/first/middle block or in the wrapped key, truncation to 0..4 blocks+-1 byte, swapped/removed/duplicated EncryptedKey, swapped data, empty/non-base64 CipherValue, wrong/unknown/absent algorithm, encrypted to another key, junk plaintext), for structural damage also with the trusted key signing the Response after the damage. Application-built requests: about one emission in 25 is an application's own IdP-initiated launch, which fills in the IdpAuthnRequest by hand (registered metadata, first POST endpoint) and names the role descriptor or not, the assertion made by DefaultAssertionMaker on that request or elsewhere on a complete copy; whatever is emitted is judged by the registered metadata as every other emission. Bundled server (30% of runs): the IdP is samlidp.Server on a fault-free store; the registry is the result of a drawn history of PUT /services/<a|b|c> (the addressee's or another SP's metadata, with the run's layout or one of {none, signing-only, enc, nouse}), DELETE and restarts, drawn so that names and entity IDs are re-used (several services carrying one entity ID, a service overwritten with the other entity); a model of the store (name -> entity, layout) says per emission what is registered for the addressee: nothing (a refusal is expected), one layout or several that agree on the key (judged as above), or several that disagree (declared don't-care). Non-trivial = a key, an open region or a panic layout is in play, the run has an SP-side step, or the IdP is the bundled server; distinct = distinct abstract log",
 		Gen:  genEncrypt, Exec: execEncrypt, Simplify: simplifyEncrypt,
 		RunsQuick: 3000, RunsThorough: 300000,
 		Assumptions: []string{
@@ -1460,10 +1870,12 @@ func init() {
 			"bit flips are only placed in the IV, the first and a middle ciphertext block (a damaged all-padding last block can decrypt to identical content) and only under an unsigned Response, where the decrypted assertion's own signature must verify",
 			"several EncryptedKey elements are a declared don't-care (several recipients are legal)",
 			"an IdP or SP panic ends the run as excluded (totality is C09's subject); counted with probes",
+			"an application-built IdpAuthnRequest that names no role descriptor is an input like any other: if a response is emitted it is judged by the registered metadata; a panic (the pinned tree) emits nothing, the run goes on and is counted as excluded",
+			"bundled server: 'the registered SP metadata' is the metadata of the stored service(s) carrying the SP's entity ID according to a model of the acknowledged PUT/DELETE calls; when several stored services carry it and their key descriptors disagree about an encryption key, the statement does not say which one is 'the' registered metadata: declared don't-care (several-stored-services-carry-the-entity-with-different-key-layouts); a response for an entity no stored service carries is C19's subject (excluded)",
 		},
 		Components: map[string][]string{
-			"real": {"saml.IdentityProvider.ServeSSO (Validate, DefaultAssertionMaker, MakeAssertionEl, MakeResponse, WriteResponse)", "saml.ServiceProvider.MakeAuthenticationRequest/Redirect/ParseXMLResponse", "xmlenc (encrypt, decrypt)", "goxmldsig", "etree", "html/template", "samlsp.ParseMetadata"},
-			"stub": {"eavesdropper / mis-delivering network / Mallory (the simulator)", "foreign IdP for the SP-side steps (library schema types + goxmldsig + xmlenc)", "browser (HTML5 form parse)", "recording reader in front of the deterministic xmlenc.RandReader"},
+			"real": {"saml.IdentityProvider.ServeSSO (Validate, DefaultAssertionMaker, MakeAssertionEl, MakeResponse, WriteResponse)", "saml.ServiceProvider.MakeAuthenticationRequest/Redirect/ParseXMLResponse", "xmlenc (encrypt, decrypt)", "goxmldsig", "etree", "html/template", "samlsp.ParseMetadata", "samlidp.Server (New/initializeServices, PUT and DELETE /services/<name>, /sso routing, GetServiceProvider) in bundled-server runs"},
+			"stub": {"eavesdropper / mis-delivering network / Mallory (the simulator)", "foreign IdP for the SP-side steps (library schema types + goxmldsig + xmlenc)", "browser (HTML5 form parse)", "recording reader in front of the deterministic xmlenc.RandReader", "the bundled server's store (the simulator's sorted in-memory store, no faults here) and its session provider (the run's session is handed in directly)", "the application that builds IdpAuthnRequests by hand"},
 		},
 	})
 }
